@@ -9,6 +9,9 @@ CLAIMS = {
  "C06": dict(engine="overlay", design="6/C06", technique="TLC exhaustive model checking of spec/Overlay.tla (impl-shaped merge vs reference ordered map) + replay of every reachable state on real StorageTransaction stacks + TLC trace validation of random real executions",
    text="Exhaustive (bounded keys/ops/depth) model checking of the write-cache design in TLA+, every explored state replayed into the real code with the full read battery compared against TLC's reference answers, and randomly driven real executions validated by TLC against the same specification.",
    note="Bounded: key alphabet of 3 symbols mapped order-preservingly to real bytes, <= 6 operations, <= 4 stacked caches exhaustively; random traces with arbitrary byte keys beyond. Trusted: TLC, MockStorage as base store, the pass-through `verif` wrappers."),
+ "C07": dict(engine="prefixed", design="6/C07", technique="TLC exhaustive model checking of spec/Prefixed.tla (impl-shaped prefix range vs reference window; B=3 and B=256) + replay of every (operation, state) through App's prefixed-storage API + TLC trace validation of random/directed real executions incl. a 65535 x 0xFF namespace",
+   text="Exhaustive bounded model checking of the namespacing design in TLA+ (window exactness, disjointness, frame), every explored transition replayed through the public prefixed-storage API of App with raw dump and full view battery compared to TLC's answers, plus TLC validation of recorded real executions with arbitrary byte namespaces.",
+   note="Bounded: adversarial path/key sets over bytes 0x00/0x01/0xFF, <= 3 operations exhaustively; the B=3 configuration covers the all-maximal prefix at design level and a directed trace covers it with real bytes. Trusted: TLC, MockStorage."),
 }
 
 def main():
